@@ -76,6 +76,10 @@ def token_pool(decl):
             add("long-toggle-eq", b"--" + n + b"=1")
             add("no-toggle-rev" if o.get("rev") else "no-toggle-nonrev", b"--no-" + n)
             add("no-toggle-eq", b"--no-" + n + b"=x")
+            add("no-toggle-near-miss", b"--no-" + n + b"x")
+            add("no-toggle-near-miss", b"--no-" + n + b"-")
+            if len(n) > 1:
+                add("no-toggle-near-miss", b"--no-" + n[:-1])
             if s:
                 add("short-toggle", b"-" + s)
                 add("short-toggle-eq", b"-" + s + b"=1")
@@ -110,6 +114,10 @@ def token_pool(decl):
             kinds = "".join(sorted(set(c[1] for c in combo)))
             cls = "bundle-" + kinds
             add(cls, b"-" + b"".join(c[0] for c in combo))
+    for (l, kd) in letters[:3]:
+        add("bundle-highbyte", b"-" + l + b"\xff")
+        add("bundle-highbyte", b"-" + l + b"\xc3\xa4")
+        add("bundle-highbyte", b"-\x80" + l)
     for (l, kd) in letters[:2]:
         add("bundle-eq", b"-" + l + l + b"=x")
     for combo in itertools.product(letters, repeat=2):
